@@ -77,6 +77,9 @@ package document
 //@ ensures old(d.contentTypes) != nil ==> len(d.contentTypes.Defaults) >= old(len(d.contentTypes.Defaults)) && len(d.contentTypes.Defaults) <= old(len(d.contentTypes.Defaults)) + 1
 //@ ensures old(d.contentTypes) != nil ==> forall j int :: 0 <= j && j < old(len(d.contentTypes.Defaults)) ==> d.contentTypes.Defaults[j] == old(d.contentTypes.Defaults[j])
 //@ ensures old(d.contentTypes) != nil && len(d.contentTypes.Defaults) == old(len(d.contentTypes.Defaults)) + 1 ==> d.contentTypes.Defaults[old(len(d.contentTypes.Defaults))].Extension == ctExt(format) && d.contentTypes.Defaults[old(len(d.contentTypes.Defaults))].ContentType == "image/" + ctExt(format) && !old(ctHasDefault(d.contentTypes.Defaults, ctExt(format)))
+// (C01, "every part has a content type") registered defaults are never lost: an extension that had a default still has one - in
+// particular "xml" and "rels", which New() registers (initializeStructure) and which cover every *.xml / *.rels part the library names
+//@ ensures old(d.contentTypes) != nil ==> forall e string :: old(ctHasDefault(d.contentTypes.Defaults, e)) ==> ctHasDefault(d.contentTypes.Defaults, e)
 //@ modifies Document.contentTypes, ContentTypes.Defaults, []Default
 //@ loop 1
 //@   invariant 0 <= #i && #i <= len(d.contentTypes.Defaults) && unchangedExcept("Document.contentTypes") && d.contentTypes != nil
@@ -157,6 +160,8 @@ package document
 // (C02, package-wide invariant docRelsResolve - zz_contracts_verif_pkg.go) every internal relationship of the list still names a part
 // that is present: the new entry's target is the new part's name relative to word/, earlier entries and parts stay
 //@ ensures old(docRelsResolve(d)) ==> docRelsResolve(d)
+// (C01) registered content-type defaults are never lost ("xml" and "rels" of New() in particular)
+//@ ensures forall e string :: old(ctHasDefault(d.contentTypes.Defaults, e)) ==> ctHasDefault(d.contentTypes.Defaults, e)
 //@ modifies Document.nextImageID, map:string:[]byte, Relationships.Relationships, []Relationship, Document.contentTypes, ContentTypes.Defaults, []Default
 
 // AddImageFromData (body path, also the data path of AddImageFromFile): the same allocation (pairwise different ids stay
